@@ -596,6 +596,8 @@ def evaluate(run: CheckRun, pool, prop, units, results) -> dict:
                       f"(minimised to {len(puml_sem.event_name_list(mu['ast']))}"
                       f" events)", pay)
     multi_text = sum(1 for v in texts.values() if len(v) > 1)
+    slow = sorted(((r.get("wall_s", 0), u["wid"], u["sched"])
+                   for u, r in zip(units, results)), reverse=True)[:5]
     cov = {
         "evaluations": len(units),
         "distinct_nontrivial": len(distinct),
@@ -617,6 +619,8 @@ def evaluate(run: CheckRun, pool, prop, units, results) -> dict:
         "distinct_hash_order_signatures": len(hash_sigs),
         "workloads_with_more_than_one_emitted_text": multi_text,
         "probes": probes,
+        "slowest_units_s": [list(x) for x in slow],
+        "unit_wall_limit_s": 900,
     }
     return cov
 
